@@ -186,11 +186,37 @@ fn gen_unit_raw(prop: &str, tier: Tier, rng: &mut Rng) -> Vec<Case> {
             vec![base_case(prop, "solve", Knobs::random(rng), br, ops, checks)]
         }
         "C04" => {
-            let sw = Swarm::draw(rng, &general_pool(), th);
-            let (vars, cons) = gen_model(rng, &sw);
+            let mut sw = Swarm::draw(rng, &general_pool(), th);
+            let wide = rng.chance(0.5);
+            if wide {
+                sw.max_space = if th { 3_000 } else { 800 };
+                sw.max_vars = 4;
+            }
+            let knapsack = rng.chance(0.35);
+            let (mut vars, mut cons) = if knapsack { gen_knapsack_model(rng) } else { gen_model(rng, &sw) };
+            if wide && !knapsack {
+                // an objective variable with a wide range, defined as a linear combination of the
+                // others: many improving steps, bounds that propagate through the definition
+                let k = rng.range(1, vars.len().min(3) as i64) as usize;
+                let mut terms: Vec<View> = (0..k).map(|i| View { var: i, scale: *rng.pick(&[1, 1, 2, -1, 3]), off: 0 }).collect();
+                let lo: i128 = terms.iter().map(|t| vars[t.var].values.iter().map(|x| t.eval_value(*x)).min().unwrap()).sum();
+                let hi: i128 = terms.iter().map(|t| vars[t.var].values.iter().map(|x| t.eval_value(*x)).max().unwrap()).sum();
+                let z = vars.len();
+                let slack = rng.range32(0, 2);
+                vars.push(VarDecl::interval(lo as i32 - slack, hi as i32 + slack));
+                terms.push(View { var: z, scale: -1, off: 0 });
+                cons.push(Con::LinEq(terms, 0));
+            }
             let mut ops = model_ops(&vars, &cons);
             // objective: plain variable, general view, or a variable fixed / decided at the root
-            let obj = if rng.chance(0.15) {
+            let obj = if (wide || knapsack) && rng.chance(0.85) {
+                let z = vars.len() - 1;
+                if rng.chance(0.6) {
+                    View::plain(z)
+                } else {
+                    View { var: z, scale: *rng.pick(&[-1, 2, -2]), off: rng.range32(-2, 2) }
+                }
+            } else if rng.chance(0.15) {
                 let fixed: Vec<usize> = (0..vars.len()).filter(|i| vars[*i].values.len() == 1).collect();
                 if fixed.is_empty() {
                     gen_view(rng, vars.len(), true)
@@ -442,6 +468,32 @@ pub fn gen_scheduling_model(rng: &mut Rng, th: bool) -> (Vec<VarDecl>, Vec<Con>)
         };
         cons.push(c);
     }
+    (vars, cons)
+}
+
+/// A small knapsack-like model for C04: item variables, one or two capacity constraints and an
+/// objective variable (the last one) defined as a weighted sum, so that optimisation goes through
+/// several incumbents and real conflicts.
+pub fn gen_knapsack_model(rng: &mut Rng) -> (Vec<VarDecl>, Vec<Con>) {
+    let n = rng.range(3, 5) as usize;
+    let mut vars: Vec<VarDecl> = (0..n).map(|_| if rng.chance(0.5) { VarDecl::boolean() } else { VarDecl::interval(0, rng.range32(1, 2)) }).collect();
+    let mut cons = vec![];
+    for _ in 0..rng.range(1, 2) {
+        let weights: Vec<View> = (0..n).map(|i| View { var: i, scale: rng.range32(1, 4), off: 0 }).collect();
+        let total: i32 = weights.iter().map(|w| w.scale * vars[w.var].ub()).sum();
+        cons.push(Con::LinLe(weights, rng.range32(total / 3, (2 * total / 3).max(1))));
+    }
+    if rng.chance(0.4) {
+        let a = rng.below(n);
+        let b = (a + 1) % n;
+        cons.push(Con::BinNe(View::plain(a), View::plain(b)));
+    }
+    let mut profit: Vec<View> = (0..n).map(|i| View { var: i, scale: *rng.pick(&[1, 2, 3, 4, -1]), off: 0 }).collect();
+    let lo: i32 = profit.iter().map(|t| (t.scale * vars[t.var].lb()).min(t.scale * vars[t.var].ub())).sum();
+    let hi: i32 = profit.iter().map(|t| (t.scale * vars[t.var].lb()).max(t.scale * vars[t.var].ub())).sum();
+    vars.push(VarDecl::interval(lo, hi));
+    profit.push(View { var: n, scale: -1, off: 0 });
+    cons.push(Con::LinEq(profit, 0));
     (vars, cons)
 }
 
